@@ -649,3 +649,99 @@ Proof.
   apply (from_columns_map_column (@czero ROps) (length uv) P (fun j0 => @dft_spec ROps (@column ROps M j0) grid uv) j Hj).
   unfold dft_spec. apply map_length.
 Qed.
+
+(* ------------------------------------------------------------------ the operator as a complex matrix *)
+Lemma dft_spec_operator (img : list R) (grid uv : list (R * R)) :
+  @dft_spec ROps img grid uv = @cmatvec ROps (@dft_matrix ROps grid uv) (map (@ofre ROps) img).
+Proof.
+  unfold dft_spec, cmatvec, dft_matrix. rewrite map_map. apply map_ext. intros uvk.
+  unfold csum. rewrite !sumT_sumR, combine_map_both, !map_map. unfold cx in *. change (T ROps) with R in *.
+  rewrite (combine_swap grid img), !map_map. cbn [fst snd]. f_equal.
+  - apply sumR_map_ext. intros ig _. unfold cmul, dft_entry, ofre. cbn [fst snd sub add mul opp cos2pi sin2pi ROps]. rewrite zero_R. ring.
+  - cbn [opp ROps]. rewrite <- sumR_map_opp. apply sumR_map_ext. intros ig _.
+    unfold cmul, dft_entry, ofre. cbn [fst snd sub add mul opp cos2pi sin2pi ROps]. rewrite zero_R. ring.
+Qed.
+
+(* ------------------------------------------------------------------ inversion level: hstack, index list *)
+Lemma from_columns_shape {A} (d : A) K (cols : list (list A)) :
+  length (from_columns d K cols) = K /\ rectn (length cols) (from_columns d K cols) = true.
+Proof.
+  unfold from_columns. split; [rewrite map_length, seq_length; reflexivity|].
+  unfold rectn. apply forallb_forall. intros r Hr. apply in_map_iff in Hr. destruct Hr as [k [<- _]].
+  rewrite map_length. apply Nat.eqb_refl.
+Qed.
+Lemma hstack_shape {A} K (Ms : list (nat * list (list A))) :
+  (forall wM, In wM Ms -> length (snd wM) = K /\ rectn (fst wM) (snd wM) = true) ->
+  length (hstack K (map snd Ms)) = K /\ rectn (fold_right (fun wM a => (fst wM + a)%nat) 0%nat Ms) (hstack K (map snd Ms)) = true.
+Proof.
+  induction Ms as [|[w M] Ms IH]; intros H; cbn [map hstack fold_right fst snd].
+  - split; [apply repeat_length|]. unfold rectn. apply forallb_forall. intros r Hr. apply repeat_spec in Hr. subst r. reflexivity.
+  - destruct (H (w, M) (or_introl eq_refl)) as [HL HR]. cbn [fst snd] in HL, HR.
+    destruct (IH (fun wM Hin => H wM (or_intror Hin))) as [IL IR]. split.
+    + rewrite map_length, combine_length, HL, IL. apply Nat.min_id.
+    + unfold rectn. apply forallb_forall. intros r Hr. apply in_map_iff in Hr. destruct Hr as [[a b] [<- Hab]].
+      cbn [fst snd]. rewrite app_length.
+      rewrite (rectn_length w M a HR (in_combine_l _ _ _ _ Hab)).
+      rewrite (rectn_length _ _ b IR (in_combine_r _ _ _ _ Hab)). apply Nat.eqb_refl.
+Qed.
+Lemma noreg_from_bound count (objs : list (nat * bool)) :
+  Forall (fun i => (i < count + fold_right (fun o a => (fst o + a)%nat) 0%nat objs)%nat) (noreg_from count objs).
+Proof.
+  revert count; induction objs as [|[p r] objs IH]; intros count; cbn [noreg_from fold_right fst]; [constructor|].
+  apply Forall_app. split.
+  - destruct r; [constructor|]. apply Forall_forall. intros i Hi. apply in_seq in Hi. lia.
+  - specialize (IH (count + p)%nat). eapply Forall_impl; [|exact IH]. cbn beta. intros i Hi. lia.
+Qed.
+
+Section Inversion.
+  Variable pi_ : R.
+  Variable G : @geom ROps.
+  Hypothesis Hrect : rectn (Wn (g_mask G)) (g_mask G) = true.
+  Hypothesis Hscal : @scales_ok ROps (g_sy G) (g_sx G) = true.
+  Variable uv : list (R * R).
+  Variable objs : list (nat * list (list R) * bool).
+
+  (* the operator applied to every column of every linear object's mapping matrix, side by side *)
+  Definition inv_matrix_spec : list (list (R * R)) :=
+    hstack (length uv) (map (fun o : nat * list (list R) * bool =>
+                               @tmm_spec ROps (fst (fst o)) (snd (fst o)) (@centres_spec ROps pi_ G) uv) objs).
+  Lemma inv_operated_spec preload : @inv_operated ROps pi_ G uv preload objs = inv_matrix_spec.
+  Proof.
+    unfold inv_operated, inv_matrix_spec. f_equal. apply map_ext. intros o.
+    apply (tr_mapping_matrix_spec pi_ G Hrect Hscal).
+  Qed.
+  Lemma inv_matrix_rect : rectn (@inv_P ROps objs) inv_matrix_spec = true.
+  Proof.
+    unfold inv_matrix_spec, inv_P.
+    pose proof (hstack_shape (length uv)
+      (map (fun o : nat * list (list R) * bool => (fst (fst o), @tmm_spec ROps (fst (fst o)) (snd (fst o)) (@centres_spec ROps pi_ G) uv)) objs)) as H.
+    rewrite map_map in H. cbn [snd] in H.
+    assert (E : forall l : list (nat * list (list R) * bool),
+              fold_right (fun (wM : nat * list (list (R * R))) a => (fst wM + a)%nat) 0%nat
+                (map (fun o : nat * list (list R) * bool => (fst (fst o), @tmm_spec ROps (fst (fst o)) (snd (fst o)) (@centres_spec ROps pi_ G) uv)) l)
+              = fold_right (fun (o : nat * list (list R) * bool) a => (fst (fst o) + a)%nat) 0%nat l)
+      by (induction l as [|o l IHl]; cbn [map fold_right fst]; congruence).
+    rewrite E in H. apply H. intros wM Hin. apply in_map_iff in Hin. destruct Hin as [o [<- _]]. cbn [fst snd].
+    unfold tmm_spec.
+    destruct (from_columns_shape (@czero ROps) (length uv)
+                (map (fun j => @dft_spec ROps (@column ROps (snd (fst o)) j) (@centres_spec ROps pi_ G) uv) (seq 0 (fst (fst o))))) as [HL HR].
+    rewrite map_length, seq_length in HR. split; assumption.
+  Qed.
+  Lemma inv_noreg_bound : Forall (fun i => (i < @inv_P ROps objs)%nat) (@inv_noreg ROps objs).
+  Proof.
+    unfold inv_noreg, inv_P, noreg_index_list.
+    pose proof (noreg_from_bound 0 (map (fun o : nat * list (list R) * bool => (fst (fst o), snd o)) objs)) as H.
+    assert (E : forall l : list (nat * list (list R) * bool),
+              fold_right (fun (o : nat * bool) a => (fst o + a)%nat) 0%nat (map (fun o : nat * list (list R) * bool => (fst (fst o), snd o)) l)
+              = fold_right (fun (o : nat * list (list R) * bool) a => (fst (fst o) + a)%nat) 0%nat l)
+      by (induction l as [|o l IHl]; cbn [map fold_right fst]; congruence).
+    rewrite E in H. exact H.
+  Qed.
+  Lemma inv_data_vector_spec preload (data noise : list (R * R)) :
+    @inv_data_vector ROps pi_ G uv preload objs data noise = @D_spec ROps (@inv_P ROps objs) inv_matrix_spec data noise.
+  Proof. unfold inv_data_vector. rewrite inv_operated_spec. apply data_vector_spec, inv_matrix_rect. Qed.
+  Lemma inv_curvature_spec preload (noise : list (R * R)) (value : R) : @noise_pos ROps noise = true ->
+    @inv_curvature ROps pi_ G uv preload objs noise value
+    = @F_spec ROps (@inv_P ROps objs) inv_matrix_spec noise (@inv_noreg ROps objs) value.
+  Proof. intros Hp. unfold inv_curvature. rewrite inv_operated_spec. apply curvature_matrix_spec; [exact Hp|apply inv_noreg_bound]. Qed.
+End Inversion.
